@@ -105,6 +105,9 @@ class PlainWrapper:
         def wrapped(*args):
             self.calls += 1
             return func(*args)
+        if getattr(self, 'kind', 'stub') == 'opaque':
+            import functools
+            return functools.partial(wrapped)
         wrapped.__name__ = getattr(func, '__name__', 'wrapped')
         wrapped.__wrapped__ = func
         return wrapped
